@@ -45,7 +45,7 @@ func init() {
 			}
 			return []runner.Phase{
 				{Name: "direct", Variant: "race", Cases: n, Run: c16direct, CaseTimeout: 180 * time.Second,
-					Required: []string{"steps", "step_add", "step_remove", "step_readdress", "step_replace_id", "step_invalid_rows", "step_duplicate_row", "step_down", "step_up", "step_refresh_failure", "step_control_loss", "step_flap", "step_event_for_removed", "step_peer_address_change", "step_join_during_control_outage", "step_filter_rejects_known_node", "step_join_announced_by_up_only", "step_removed_event_for_live_address", "step_join_listed_after_duplicate", "sessions_with_host_filter", "consistency_checks"}},
+					Required: []string{"steps", "step_down_vanish_return", "step_add", "step_remove", "step_readdress", "step_replace_id", "step_invalid_rows", "step_duplicate_row", "step_down", "step_up", "step_refresh_failure", "step_control_loss", "step_flap", "step_event_for_removed", "step_peer_address_change", "step_join_during_control_outage", "step_filter_rejects_known_node", "step_join_announced_by_up_only", "step_removed_event_for_live_address", "step_join_listed_after_duplicate", "sessions_with_host_filter", "consistency_checks"}},
 				{Name: "realtime", Variant: "race", Cases: rt, Shards: 8, Run: c16realtime, CaseTimeout: 180 * time.Second, Required: []string{"event_bursts", "refresh_overlaps"}},
 			}
 		},
@@ -563,6 +563,38 @@ func c16direct(c *runner.Ctx, i int) {
 			desc = "up " + n.IP.String()
 			c.Add("step_up", 1)
 			gocql.VerifHandleNodeEvents(sess, []gocql.VerifNodeEvent{{Change: "UP", Host: peerAddr(n), Port: 9042}})
+		case step == 18 && len(others) > 1:
+			// a node is reported down, then vanishes from the peers while it is down, and later is back as it was
+			// (same id, same address) and up: it is known, connected and offered again
+			var cand []*fakenode.Node
+			for _, n := range others {
+				if !m.isDenied(n) {
+					cand = append(cand, n)
+				}
+			}
+			if len(cand) == 0 {
+				continue
+			}
+			n := cand[r.Intn(len(cand))]
+			desc = fmt.Sprintf("down, vanish, return of %s", n.IP)
+			n.SetDown(true)
+			m.down[n] = true
+			gocql.VerifHandleNodeEvents(sess, []gocql.VerifNodeEvent{{Change: "DOWN", Host: peerAddr(n), Port: 9042}})
+			c16quiesce(sess, m)
+			cl.RemoveNode(n)
+			delete(m.down, n)
+			if err := refresh(); err != nil {
+				c.Inconclusive("c16-refresh-unavailable", clipS(err.Error()))
+				return
+			}
+			cl.ReturnNode(n)
+			changed = true
+			if err := refresh(); err != nil {
+				c.Inconclusive("c16-refresh-unavailable", clipS(err.Error()))
+				return
+			}
+			gocql.VerifHandleNodeEvents(sess, []gocql.VerifNodeEvent{{Change: "UP", Host: peerAddr(n), Port: 9042}})
+			c.Add("step_down_vanish_return", 1)
 		case step == 11 && len(m.removed) > 0:
 			n := m.removed[r.Intn(len(m.removed))]
 			ch := []string{"UP", "DOWN"}[r.Intn(2)]
